@@ -51,6 +51,21 @@ def _log(event_file, text):
         os.close(fd)
 
 
+_EXC = {"MemoryError": MemoryError, "ConnectionError": ConnectionError, "ConnectionResetError": ConnectionResetError, "TimeoutError": TimeoutError,
+        "InterruptedError": InterruptedError, "OSError": OSError, "KeyError": KeyError, "StopIteration": StopIteration, "ArithmeticError": ArithmeticError,
+        "UnicodeDecodeError": None}
+
+
+def _raise(item, text):
+    """The failure the case asked for, as the exception class it asked for (user callbacks fail in every way)."""
+    name = item.get("exc")
+    if not name:
+        raise Planned(text)
+    if name == "UnicodeDecodeError":
+        b"\xff\xfe".decode("utf-8")
+    raise _EXC[name](text)
+
+
 def process_item(item, *sketches, event_file=None, die=None, table=None):
     # items may be opaque handles (ints incl. 0, bytes incl. b"" and non-UTF-8, "", ()) whose payload is in `table`
     if table is not None:
@@ -62,8 +77,12 @@ def process_item(item, *sketches, event_file=None, die=None, table=None):
     if item.get("sleep_ms"):
         time.sleep(item["sleep_ms"] / 1000.0)
     mark = item.get("mark")
+    if item.get("hold_view"):
+        # the callback keeps references to the sketches' public arrays in its locals (they live on in the traceback of
+        # whatever it raises, until the worker lets go of it)
+        held = [getattr(s_, n_) for s_ in sketches for n_ in ("cms", "registers", "lhh_count", "n_added_records") if hasattr(s_, n_)]  # noqa: F841
     if mark == "raise_before":
-        raise Planned(f"item {i} fails before touching the sketches")
+        _raise(item, f"item {i} fails before touching the sketches")
     if mark == "raise_custom":
         raise PlannedRecordError(i, "malformed record")
     if mark == "exit":
@@ -89,7 +108,7 @@ def process_item(item, *sketches, event_file=None, die=None, table=None):
         for s in sketches:
             s.add(kb, v)
     if mark == "raise_after":
-        raise Planned(f"item {i} fails after updating the sketches")
+        _raise(item, f"item {i} fails after updating the sketches")
     _log(event_file, f"{os.getpid()} {i} done")
     if item.get("ret") == "np.int64":
         import numpy as np
